@@ -42,7 +42,7 @@ RMs == [ R1  |-> <<Eq("a", "x")>>,
          R9  |-> << >>,
          R10 |-> <<Re("b", "y?")>>,
          R11 |-> <<Eq("a", "x"), Ne("a", "x")>>,
-         R12 |-> <<Re("a", "x.*"), Nre("a", "x"), Eq("c", "x")>> ]
+         R12 |-> <<Nre("a", "x"), Re("a", "x.*"), Eq("c", "x")>> ]
 RMNames == DOMAIN RMs
 
 NoDeco == [rcv |-> << >>, gbo |-> "inherit", gb |-> << >>,
@@ -202,27 +202,28 @@ ClearLastCont(n, p) ==
 RECURSIVE AnyCont(_)
 AnyCont(n) == n.cont \/ \E i \in 1..Len(n.kids) : AnyCont(n.kids[i])
 
------------------------------------------------------------------------------
-(* Structural theorems of C07, for one tree and one label set.             *)
+-----------------------------------------------------------------------------------------------------------------------------------------------------
+(* Structural theorems of C07, for one tree t, one label set ls and the    *)
+(* result r = Route(t, ls).                                                *)
 Elems(r) == {r[i] : i \in 1..Len(r)}
+LastKidContinues(n) == n.kids # << >> /\ n.kids[Len(n.kids)].cont
 
-ThNonEmpty(t, ls)   == Route(t, ls) # << >>
-ThPreOrder(t, ls)   == LET r == Route(t, ls)                   \* depth-first order, no route twice,
-                       IN /\ \A i \in 1..(Len(r) - 1) : Before(r[i], r[i + 1])
-                          /\ \A i, j \in 1..Len(r) : i # j => ~IsPrefix(r[i], r[j])   \* never a route and its ancestor
-ThPathHolds(t, ls)  == \A p \in Elems(Route(t, ls)) :
-                          \A k \in 0..Len(p) : Holds(NodeAt(t, Prefix(p, k)), ls)
-ThReference(t, ls)  == Elems(Route(t, ls)) = {p \in Paths(t) : Selected(t, ls, p)}
-ThLastCont(t, ls)   == \A p \in Paths(t) : Route(ClearLastCont(t, p), ls) = Route(t, ls)
-ThReceiver(t, ls)   == \A p \in Elems(Route(t, ls)) : Opts(t, p).rcv # ""
-ThFirstOnly(t, ls)  == ~AnyCont(t) => Len(Route(t, ls)) = 1
-ThInherit(t)        == \A p \in Paths(t) : Proj(Opts(t, p)) = OptsRef(t, p)
-ThUniqueIds(t)      == \A p, q \in Paths(t) : IdAt(t, p) = IdAt(t, q) => p = q
-ThPreOrderAll(t)    == LET s == PreOrder(t)
-                       IN /\ Elems(s) = Paths(t)
-                          /\ \A i \in 1..(Len(s) - 1) : Before(s[i], s[i + 1])
+ThNonEmpty(r)         == r # << >>
+ThPreOrder(r)         == /\ \A i \in 1..(Len(r) - 1) : Before(r[i], r[i + 1])           \* depth-first order, no route twice
+                         /\ \A i, j \in 1..Len(r) : i # j => ~IsPrefix(r[i], r[j])       \* never a route and its ancestor
+ThPathHolds(t, ls, r) == \A p \in Elems(r) : \A k \in 0..Len(p) : Holds(NodeAt(t, Prefix(p, k)), ls)
+ThReference(t, ls, r) == Elems(r) = {p \in Paths(t) : Selected(t, ls, p)}
+ThLastCont(t, ls, r)  == \A p \in Paths(t) :
+                            LastKidContinues(NodeAt(t, p)) => Route(ClearLastCont(t, p), ls) = r
+ThReceiver(t, r)      == \A p \in Elems(r) : Opts(t, p).rcv # ""
+ThFirstOnly(t, r)     == ~AnyCont(t) => Len(r) = 1
+ThInherit(t)          == \A p \in Paths(t) : Proj(Opts(t, p)) = OptsRef(t, p)
+ThUniqueIds(t)        == Cardinality({IdAt(t, p) : p \in Paths(t)}) = Cardinality(Paths(t))
+ThPreOrderAll(t)      == LET s == PreOrder(t)
+                         IN /\ Elems(s) = Paths(t)
+                            /\ \A i \in 1..(Len(s) - 1) : Before(s[i], s[i + 1])
 
------------------------------------------------------------------------------
+-----
 (* The tree space: trees of bounded depth and fan-out built from sets of   *)
 (* matcher lists and decorations.  With Pick(S) = S the sets are complete; *)
 (* with Pick(S) = {RandomElement(S)} each evaluation yields one random     *)
@@ -251,17 +252,25 @@ Init == \E o \in RootDecos : tree = MkNode(<< >>, FALSE, o, << >>)
 AddChild(S) == /\ Len(tree.kids) < RootFan
                /\ \E c \in S : tree' = [tree EXCEPT !.kids = Append(@, c)]
 
+R(l) == Route(tree, LSets[l])
 TypeOK       == WellFormed(tree)
-NonEmpty     == \A l \in LSetNames : ThNonEmpty(tree, LSets[l])
-PreOrdered   == \A l \in LSetNames : ThPreOrder(tree, LSets[l])
-PathHolds    == \A l \in LSetNames : ThPathHolds(tree, LSets[l])
-Reference    == \A l \in LSetNames : ThReference(tree, LSets[l])
-LastContinue == \A l \in LSetNames : ThLastCont(tree, LSets[l])
-HasReceiver  == \A l \in LSetNames : ThReceiver(tree, LSets[l])
-FirstOnly    == \A l \in LSetNames : ThFirstOnly(tree, LSets[l])
+NonEmpty     == \A l \in LSetNames : ThNonEmpty(R(l))
+PreOrdered   == \A l \in LSetNames : ThPreOrder(R(l))
+PathHolds    == \A l \in LSetNames : ThPathHolds(tree, LSets[l], R(l))
+Reference    == \A l \in LSetNames : ThReference(tree, LSets[l], R(l))
+LastContinue == \A l \in LSetNames : ThLastCont(tree, LSets[l], R(l))
+HasReceiver  == \A l \in LSetNames : ThReceiver(tree, R(l))
+FirstOnly    == \A l \in LSetNames : ThFirstOnly(tree, R(l))
 Inheritance  == ThInherit(tree)
 UniqueIds    == ThUniqueIds(tree)
 PreOrderAll  == ThPreOrderAll(tree)
+\* all theorems about results in one invariant (the result is computed once per label set)
+Theorems ==
+  \A l \in LSetNames :
+     LET ls == LSets[l]
+         r  == Route(tree, ls)
+     IN /\ ThNonEmpty(r) /\ ThPreOrder(r) /\ ThPathHolds(tree, ls, r) /\ ThReference(tree, ls, r)
+        /\ ThLastCont(tree, ls, r) /\ ThReceiver(tree, r) /\ ThFirstOnly(tree, r)
 \* adding a later sibling never changes what the earlier siblings produce: the new
 \* result extends the old one, or is the old one (the scan had stopped), or the
 \* old one was the root alone
